@@ -38,3 +38,4 @@
             Err(e) => { assert!(e.kind() == ErrorKind::BufferSizeLimit, "[oversize_entry_is_rejected_whole_with_size_limit]"); std::mem::forget(e); }
         }
     }
+
